@@ -328,6 +328,15 @@ def use_getattr_method(has, n):
     return out
 
 
+def use_quantifiers(a, b):
+    xs = [a, b, 3]
+    r1 = all(x is None or x > 0 for x in xs)
+    r2 = any(x == 0 for x in [a, b])
+    b = b + 1
+    r3 = any(x == 1 for x in xs)
+    return r1, r2, r3, all(isinstance(x, int) for x in (a,))
+
+
 def use_range_len(xs):
     out = []
     for i in range(len(xs)):
@@ -397,6 +406,21 @@ class K:
     def ret(self, by):
         return self._bump(by)
 
+    @classmethod
+    def _geom(cls, a, b):
+        lo, hi = cls._order(a, b)
+        return hi - lo, cls.__name__
+
+    @staticmethod
+    def _order(a, b):
+        if a <= b:
+            return a, b
+        return b, a
+
+    def geom(self, by):
+        d, name = self._geom(self.n, by)
+        return d, name, self._geom(by, 2)
+
     @property
     def _odd_items(self):
         return [i for i in range(self.n) if i % 2]
@@ -444,7 +468,7 @@ def main():
     lists = [[], [1], [2, 3], [1, 3, 5], [4, 6, 9, 12], [5, 4, 3, 2, 1], [-2, 7, -1, 0], [0, 2, 9]]
     cases = []
     for x, y in itertools.product(ints, ints):
-        for f in ("use_display_loop", "use_display_loop_rebind", "use_pred", "use_pair", "use_pair_attr", "use_reassign", "use_reassign_ret", "use_tuple_assign", "use_bounds", "use_reassign_dead", "use_reassign_loop"):
+        for f in ("use_quantifiers", "use_display_loop", "use_display_loop_rebind", "use_pred", "use_pair", "use_pair_attr", "use_reassign", "use_reassign_ret", "use_tuple_assign", "use_bounds", "use_reassign_dead", "use_reassign_loop"):
             cases.append((f, (x, y)))
     for x in ints:
         for f in ("use_clip", "use_clip_ret", "use_mutate", "use_order", "use_chain", "use_ifexp", "use_while", "use_displays"):
@@ -474,7 +498,7 @@ def main():
             print("MISMATCH", f, args, ra, rb)
     for n in (0, 3, 6, 9):
         for by in (0, 1, 4):
-            for meth in ("run", "ret", "prop"):
+            for meth in ("run", "ret", "prop", "geom"):
                 ra = repr(getattr(a.K(n), meth)(by))
                 rb = repr(getattr(b.K(n), meth)(by))
                 if ra != rb:
